@@ -227,15 +227,13 @@ func aggregatorContextRule(c *Ctx, id string, runAsync *ssa.Function) {
 	})
 	c.Check(detached, id, key+":Aggregator.Run-not-cancelled-with-the-run", run.Pos(),
 		"the aggregator's context must not be a child of the pool/run context: when the run is cancelled (signal, failure of another pool) instances still report the shots in flight, and an aggregator cancelled at the same moment drains and returns before them (samples lost)")
-	// (3) who may call the cancel field
-	checkAll := P.Func("core/engine", "runAwaitHandle", "checkAllInstancesAreFinished")
-	sp := P.SSAPkg("core/engine")
-	if checkAll == nil || sp == nil {
-		c.Anchor(id, "core/engine.(*runAwaitHandle).checkAllInstancesAreFinished")
+	// (3) who may call the cancel field: only the code that runs after close(runRes) proved every run result awaited
+	af := findAllFinished(c, id)
+	if af == nil {
 		return
 	}
 	n, okWho := 0, true
-	for _, g := range PkgFuncs(sp) {
+	for _, g := range PkgFuncs(af.pkg) {
 		if !IsProdFile(P.File(g.Pos())) {
 			continue
 		}
@@ -246,32 +244,104 @@ func aggregatorContextRule(c *Ctx, id string, runAsync *ssa.Function) {
 			}
 			if IsFieldCall(cc, "", field) || DerivesAny(cc.Value, false, IsResultOf(wc, 1)) {
 				n++
-				if g != checkAll {
+				if !af.after(in) {
 					okWho = false
-					c.Bad(id, fk(g)+":"+field+"-caller", in.Pos(), field+" (the aggregator's cancel) may only be called by checkAllInstancesAreFinished")
+					c.Bad(id, fk(g)+":"+field+"-caller", in.Pos(), field+" (the aggregator's cancel) may only be called after close(runRes) in the all-instances-finished action")
 				}
 			}
 		})
 	}
-	c.Check(okWho && n >= 1, id, key+":aggregator-cancelled-only-after-all-instances", checkAll.Pos(),
-		fmt.Sprintf("%d call(s) of %s, all in checkAllInstancesAreFinished (after close(runRes) proved every run result was awaited)", n, field))
-	// the cancel is reached on every path of checkAll that cancels the run
-	if okWho && n >= 1 {
-		var runCancel, aggCancel ssa.Instruction
-		EachInstr(checkAll, func(in ssa.Instruction) {
-			if cc := CC(in); cc != nil {
-				if IsFieldCall(cc, "", "runCancel") {
-					runCancel = in
-				}
-				if IsFieldCall(cc, "", field) {
-					aggCancel = in
-				}
-			}
+	c.Check(okWho && n >= 1, id, key+":aggregator-cancelled-only-after-all-instances", af.close.Pos(),
+		fmt.Sprintf("%d call(s) of %s, all after close(runRes) proved every run result was awaited", n, field))
+	// the cancel is reached on every path that cancels the run
+	if okWho && n >= 1 && field != "runCancel" {
+		iv := af.countAfter(func(in ssa.Instruction) bool {
+			cc := CC(in)
+			return cc != nil && IsFieldCall(cc, "", field)
 		})
-		if field != "runCancel" {
-			okPair := runCancel != nil && aggCancel != nil && (InstrDominates(runCancel, aggCancel) || InstrDominates(aggCancel, runCancel)) &&
-				NewPostDom(checkAll, false).PostDominates(aggCancel.Block(), runCancel.Block())
-			c.Check(okPair, id, fk(checkAll)+":aggregator-cancelled-whenever-run-is", checkAll.Pos(), "every path that calls runCancel also calls the aggregator's cancel (otherwise the aggregator never ends and the pool never finishes)")
+		c.Check(iv.Is(1, 1), id, fk(af.fn)+":aggregator-cancelled-whenever-run-is", af.close.Pos(),
+			fmt.Sprintf("calls of the aggregator's cancel on the paths after close(runRes) = %v (want [1,1]: otherwise the aggregator never ends and the pool never finishes)", iv))
+	}
+}
+
+
+// allFinished describes the one place of core/engine where the awaiter concludes that every instance run was awaited:
+// the close(runRes) (the assertion that nothing more can arrive) and what follows it. Rules refer to it by this effect,
+// not by the name of the function it happens to live in.
+type allFinished struct {
+	pkg   *ssa.Package
+	fn    *ssa.Function   // the function containing close(runRes)
+	close ssa.Instruction // the close
+}
+
+func findAllFinished(c *Ctx, id string) *allFinished {
+	sp := c.P.SSAPkg("core/engine")
+	if sp == nil {
+		c.Anchor(id, "package core/engine")
+		return nil
+	}
+	var closes []ssa.Instruction
+	for _, g := range PkgFuncs(sp) {
+		if !IsProdFile(c.P.File(g.Pos())) {
+			continue
 		}
+		EachInstr(g, func(in ssa.Instruction) {
+			if IsBuiltinCall(in, "close") && DerivesAny(CC(in).Args[0], false, IsFieldLoadPred("", "runRes")) {
+				closes = append(closes, in)
+			}
+		})
 	}
+	if len(closes) != 1 {
+		c.Bad(id, "core/engine:one-close-of-runRes", sp.Pkg.Scope().Pos(), fmt.Sprintf("%d close(runRes) in core/engine (want exactly 1: the assertion that all run results were awaited)", len(closes)))
+		return nil
+	}
+	return &allFinished{sp, closes[0].Parent(), closes[0]}
+}
+
+// after: the instruction runs only after the close - it is dominated by it in the same function, or lives in a
+// function whose only call site does (three levels).
+func (a *allFinished) after(in ssa.Instruction) bool {
+	for depth := 0; depth < 4 && in != nil; depth++ {
+		if in.Parent() == a.fn {
+			return in != a.close && InstrDominates(a.close, in)
+		}
+		in = SoleCallSite(in.Parent())
+	}
+	return false
+}
+
+// reaches: calling g runs the all-finished action (g is its function or statically calls it, three levels).
+func (a *allFinished) reaches(g *ssa.Function) bool {
+	var walk func(f *ssa.Function, d int) bool
+	seen := map[*ssa.Function]bool{}
+	walk = func(f *ssa.Function, d int) bool {
+		if f == a.fn {
+			return true
+		}
+		if f == nil || d > 3 || seen[f] {
+			return false
+		}
+		seen[f] = true
+		found := false
+		EachInstr(f, func(in ssa.Instruction) {
+			if _, isGo := in.(*ssa.Go); isGo {
+				return
+			}
+			if cc := CC(in); cc != nil && cc.StaticCallee() != nil && walk(cc.StaticCallee(), d+1) {
+				found = true
+			}
+		})
+		return found
+	}
+	return walk(g, 0)
+}
+
+// countAfter counts the events on the paths from the close to the return of its function (callees included).
+func (a *allFinished) countAfter(pred func(ssa.Instruction) bool) Interval {
+	return PathQuery{Fn: a.fn, Start: a.close, Exit: func(b *ssa.BasicBlock) bool { return ExitOf(b) == ExitReturn }, Weight: func(in ssa.Instruction) (int, int) {
+		if pred(in) {
+			return 1, 1
+		}
+		return 0, 0
+	}}.Count()
 }
